@@ -201,7 +201,7 @@ def run_batch(res: Result, fam, members, argnames, arglists, sig, case, extra_gl
                 # does the interpreter accept it?
                 try:
                     fm.py_func(*arglists[0])
-                    failing[m] = f"{type(em).__name__}: {str(em).strip().splitlines()[0][:160]}"
+                    failing[m] = f"{type(em).__name__}: {(str(em).strip().splitlines() or [""])[0][:160]}"
                 except Exception:  # noqa: BLE001
                     res.count("member_fails_in_interpreter_too")
     for m, why in failing.items():
@@ -369,7 +369,7 @@ def run_awkward_loops(res, dim, system, flavor, tier, case):
     try:
         got = f(arr)
     except Exception as e:  # noqa: BLE001
-        res.add_to("compile_failures", f"P6|awkward loop|{sig}||{type(e).__name__}: {str(e).strip().splitlines()[0][:160]}")
+        res.add_to("compile_failures", f"P6|awkward loop|{sig}||{type(e).__name__}: {(str(e).strip().splitlines() or [""])[0][:160]}")
         return
     # interpreted reference: the same loop body run by the interpreter on the same array
     want = ns["probe"](arr)
